@@ -110,6 +110,35 @@ def measure(img: torch.Tensor, scene: Scene, scale: float, max_hw):
     return fr, a, eff
 
 
+ORIGIN_TOL = 1.5   # px: content further than this from where "padding only at the bottom/right" puts it is a shift
+
+
+def content_origin(img: torch.Tensor, fr, a: float):
+    """Where does the frame's content start in the tensor?  Read from the ABSOLUTE ramp channels
+    (channel 1 = RAMP0 + x, channel 2 = RAMP0 + y of the original frame): a content pixel at tensor
+    column j shows original column u = 255·v − RAMP0; with the resizer's pixel-centre convention it should
+    sit at column (u + ½)·a − ½.  Returns the (dx, dy) by which the content is displaced from there
+    (≈ 0 for a pipeline that resizes and pads at the bottom/right only), or None when the frame has no ramp.
+    Sub-pixel registration (|d| < ORIGIN_TOL) is C04's and reads as (0, 0)."""
+    t = img.reshape(-1, img.shape[-2], img.shape[-1])
+    if t.shape[0] < 3:
+        return None
+    f = t.detach().cpu().numpy().astype(np.float64)
+    v = fr.code / 255.0
+    inside = np.abs(f[0] - v) < 1e-4
+    rows = np.where(inside.any(axis=1))[0]
+    cols = np.where(inside.any(axis=0))[0]
+    if len(rows) < 5 or len(cols) < 5:
+        return None
+    r0, c0 = int(rows[len(rows) // 2]), int(cols[len(cols) // 2])
+    if not inside[r0, c0]:
+        return None
+    ux, uy = 255.0 * f[1, r0, c0] - RAMP0, 255.0 * f[2, r0, c0] - RAMP0
+    dx = c0 - ((ux + 0.5) * a - 0.5)
+    dy = r0 - ((uy + 0.5) * a - 0.5)
+    return (float(dx) if abs(dx) > ORIGIN_TOL else 0.0, float(dy) if abs(dy) > ORIGIN_TOL else 0.0)
+
+
 def locate_crop(crop: torch.Tensor, full: torch.Tensor, code: int, crop_hw=None):
     """Where was `crop` (C,h,w) taken from `full` (C,H,W)?  Top-left corner of the crop in `full`'s
     pixel coordinates, read from the ramp channels of pixels around the crop's centre, by inverting
@@ -178,6 +207,7 @@ class IdealNet(torch.nn.Module):
             if self.kind == "centered":
                 ctx = self.context
                 fr, a, eff = measure(ctx["image"][b], self.scene, self.scale, self.max_hw)
+                org = content_origin(ctx["image"][b], fr, a) or (0.0, 0.0)
                 bbox = ctx["instance_bbox"][b].reshape(4, 2).to(torch.float64)
                 tl = bbox[0]
                 tl_bbox = (float(tl[0]), float(tl[1]))
@@ -195,18 +225,19 @@ class IdealNet(torch.nn.Module):
                      for an in fr.animals]
                 k = int(np.argmin(d))
                 pts = torch.tensor([[float("nan")] * 2 if p is None else
-                                    [p[0] * a - float(tl[0]), p[1] * a - float(tl[1])]
+                                    [p[0] * a + org[0] - float(tl[0]), p[1] * a + org[1] - float(tl[1])]
                                     for p in fr.animals[k].pts], dtype=torch.float32)
                 cm = generate_confmaps(pts.unsqueeze(0), img_hw=(Hin, Win), sigma=self.sigma,
                                        output_stride=self.os)
                 entries.append({"code": fr.code, "a": a, "eff": eff, "animal": k,
                                 "tl": (float(tl[0]), float(tl[1])), "hw": (Hin, Win),
-                                "tl_bbox": tl_bbox, "tl_px": tl_px, "tl_mismatch": bool(mismatch)})
+                                "tl_bbox": tl_bbox, "tl_px": tl_px, "tl_mismatch": bool(mismatch), "origin": org})
             else:
                 fr, a, eff = measure(x[b], self.scene, self.scale, self.max_hw)
+                org = content_origin(x[b], fr, a) or (0.0, 0.0)   # where the content really starts in the tensor
                 if self.kind == "single":
                     if fr.animals:
-                        pts = torch.tensor([[float("nan")] * 2 if p is None else [p[0] * a, p[1] * a]
+                        pts = torch.tensor([[float("nan")] * 2 if p is None else [p[0] * a + org[0], p[1] * a + org[1]]
                                             for p in fr.animals[0].pts], dtype=torch.float32)
                     else:
                         pts = torch.full((self.scene.n_nodes, 2), float("nan"))
@@ -215,14 +246,14 @@ class IdealNet(torch.nn.Module):
                 else:
                     bumps = [(an.centroid, an.gain) for an in fr.animals if an.rendered] + [(ph, 1.0) for ph in fr.phantoms]
                     if bumps and all(g == 1.0 for _, g in bumps):
-                        cs = torch.tensor([[c[0] * a, c[1] * a] for c, _ in bumps], dtype=torch.float32)
+                        cs = torch.tensor([[c[0] * a + org[0], c[1] * a + org[1]] for c, _ in bumps], dtype=torch.float32)
                         cm = generate_multiconfmaps(cs.unsqueeze(0), img_hw=(Hin, Win), num_instances=len(bumps),
                                                     sigma=self.sigma, output_stride=self.os, is_centroids=True)
                     elif bumps:
                         # bumps of different heights: the repo's map of each bump, scaled, combined by max
                         cm = None
                         for c, g in bumps:
-                            one = torch.tensor([[c[0] * a, c[1] * a]], dtype=torch.float32)
+                            one = torch.tensor([[c[0] * a + org[0], c[1] * a + org[1]]], dtype=torch.float32)
                             m1 = float(g) * generate_multiconfmaps(one.unsqueeze(0), img_hw=(Hin, Win), num_instances=1,
                                                                    sigma=self.sigma, output_stride=self.os, is_centroids=True)
                             cm = m1 if cm is None else torch.maximum(cm, m1)
@@ -230,7 +261,7 @@ class IdealNet(torch.nn.Module):
                         from sleap_nn.data.utils import make_grid_vectors
                         xv, yv = make_grid_vectors(Hin, Win, self.os)
                         cm = torch.zeros((1, 1, yv.shape[0], xv.shape[0]), dtype=torch.float32)
-                entries.append({"code": fr.code, "a": a, "eff": eff, "hw": (Hin, Win)})
+                entries.append({"code": fr.code, "a": a, "eff": eff, "hw": (Hin, Win), "origin": org})
             if fr.undershoot:
                 # realistic network undershoot: a small negative plateau around every bump (channels of
                 # invisible nodes stay identically zero); the argmax does not move
@@ -490,18 +521,27 @@ def _wrap_keep(net: IdealNet):
 
 
 def build_single(scene, skeletons, *, scale, os_, max_stride, max_hw, batch_size, refinement,
-                 threshold=0.2, sigma=1.5, mode_layers=False):
-    """REAL SingleInstancePredictor around an ideal-network stub."""
+                 threshold=0.2, sigma=1.5, mode_layers=False, is_rgb=False, override_hw=False):
+    """REAL SingleInstancePredictor around an ideal-network stub.  `override_hw`: the training config
+    carries a DIFFERENT size-matching target and the real one arrives through `preprocess_config`
+    (the documented override: `data_config.max_height if not None else <training config>`)."""
     from sleap_nn.inference.predictors import SingleInstancePredictor
-    cfg = mk_config("single_instance", scale=scale, max_stride=max_stride, output_stride=os_,
-                    max_height=max_hw[0], max_width=max_hw[1], sigma=sigma)
+    from omegaconf import OmegaConf
+    pre = None
+    if override_hw and max_hw[0] is not None:
+        cfg = mk_config("single_instance", scale=scale, max_stride=max_stride, output_stride=os_,
+                        max_height=max_hw[0] + 24, max_width=max_hw[1] + 40, sigma=sigma, is_rgb=not is_rgb)
+        pre = OmegaConf.create({"is_rgb": is_rgb, "max_height": max_hw[0], "max_width": max_hw[1], "scale": scale})
+    else:
+        cfg = mk_config("single_instance", scale=scale, max_stride=max_stride, output_stride=os_,
+                        max_height=max_hw[0], max_width=max_hw[1], sigma=sigma, is_rgb=is_rgb)
     net = _wrap_keep(IdealNet(scene, "single", os_, sigma=sigma, scale=scale, max_hw=max_hw))
     if mode_layers:
         net = ModeNet(net, scene.n_nodes)
     p = SingleInstancePredictor(confmap_config=cfg, confmap_model=net, backbone_type="unet",
                                 skeletons=skeletons, peak_threshold=threshold,
                                 integral_refinement=refinement, batch_size=batch_size,
-                                preprocess_config=None)
+                                preprocess_config=pre)
     return p, net
 
 
